@@ -326,9 +326,7 @@ def check(case: t.Any, ctx: Ctx) -> None:
             return
 
         # ---- multi-document YAML ------------------------------------------------------------------------
-        if ndocs is not None and fmt == 'yaml' and nd.kind in ('struct-literal', 'tuple-literal'):
-            ctx.exclude('from_yaml_all builds List[T]; typing rejects struct/tuple type literals inside generics (DESIGN section 2)')
-        elif ndocs is not None and fmt == 'yaml':
+        if ndocs is not None and fmt == 'yaml':
             buf = io.StringIO()
             o2 = dict(opts, explicit_start=True)
             docs = [x] * ndocs
